@@ -304,11 +304,17 @@ func (w *World) computeWritesExisting() {
 	for changed := true; changed; {
 		changed = false
 		for _, f := range lib {
+			if w.FrameAll[f] {
+				continue // proves by obligation that it writes nothing that existed before the call (bytes aside)
+			}
 			for _, b := range f.Blocks {
 				for _, ins := range b.Instrs {
 					for _, ev := range w.instrWrites(ins, f) {
 						if ev.root.kind == rootFresh {
 							continue
+						}
+						if _, isStore := ins.(*ssa.Store); isStore && w.FrameKeys[f][ev.key] {
+							continue // proved fresh by a framewrite obligation of this function
 						}
 						if os.Getenv("GOBTVC_DEBUG_WE") != "" && strings.Contains(funcName(f), os.Getenv("GOBTVC_DEBUG_WE")) && w.WE[f][ev.key] == nil {
 							fmt.Fprintf(os.Stderr, "WE %s key=%s kind=%d param=%d at %s: %s\n", funcName(f), ev.key, ev.root.kind, ev.root.param, w.Fset.Position(ev.at.Pos()), ev.at)
